@@ -70,6 +70,8 @@ def run_case(F, fn, lty, rty, a_sign, r_sign, b_sign):
 
 def run(facts, rep, tier):
     F = facts["default"]
+    from engines import eqop
+    eqop(F, rep, ('crates/incan_core/src/lib.rs', 'crates/incan_stdlib/src/num.rs', 'crates/incan_stdlib/src/errors.rs', 'crates/incan_core/src/errors.rs', 'src/backend/ir/conversions.rs'))
     rep.assumptions += [
         "IEEE-754 / Rust semantics of `/`, `%` (truncating; remainder takes the sign of the dividend or is zero) and "
         "f64::floor",
